@@ -24,14 +24,14 @@ Theorem C05_clear_default :
          (f_prevent (rt_fl r fid) = false ->
           used <> [] ->
           opt_clear_default orc delim ht env edelim oc r = set_defaults orc delim ht oc used (opt_empty o r1)).
-Proof. exact opt_clear_default_spec. Qed.
+Proof. exact @opt_clear_default_spec. Qed.
 Print Assumptions C05_clear_default.
 
 Theorem C05_env_counts_when_set :
   forall (env : list (str * str)) (edelim : str) (oc : octx) (v : str),
          nonempty (env_key edelim oc) = true ->
          assoc_str env (env_key edelim oc) = Some v -> default_source env edelim oc <> [].
-Proof. exact default_source_env. Qed.
+Proof. exact @default_source_env. Qed.
 Print Assumptions C05_env_counts_when_set.
 
 Theorem C05_set_default :
@@ -50,7 +50,7 @@ Theorem C05_set_default :
           | Err e => Err e
           | Panic w => Panic w
           end).
-Proof. exact opt_set_default_spec. Qed.
+Proof. exact @opt_set_default_spec. Qed.
 Print Assumptions C05_set_default.
 
 (* explicitly given values replace - never extend - values from lower-ranked sources (the first occurrence after the clear flag was armed discards the previous contents) *)
@@ -66,13 +66,280 @@ Theorem C05_explicit_replaces :
          exists r' : rt,
            opt_set orc delim ht oc (Some v) r = Ok (r', None) /\
            set_result fid r r' (VSlice false (old ++ [x])) /\ f_clearref (rt_fl r' fid) = false.
-Proof. exact opt_set_slice. Qed.
+Proof. exact @opt_set_slice. Qed.
 Print Assumptions C05_explicit_replaces.
 
 Theorem C05_clear_default_frame :
   forall (orc : oracles) (delim : str) (ht : rt -> str) (env : list (str * str)) 
            (edelim : str) (oc : octx) (r r' : rt) (e : option err),
          opt_clear_default orc delim ht env edelim oc r = Ok (r', e) -> frame_at (o_fid (oc_opt oc)) r r'.
-Proof. exact opt_clear_default_frame. Qed.
+Proof. exact @opt_clear_default_frame. Qed.
 Print Assumptions C05_clear_default_frame.
+
+(* ---- added by bin/mkprops (batch 2) ---- *)
+From GoFlags Require Import Base.Str Base.Utf8 Golib.Strings Golib.Strconv Model.Types Model.Tag Model.Scan Model.Lookup Model.Convert Model.State Model.Closest Model.Help Model.Parse Model.Ini Model.Complete.
+From GoFlags Require Import Proofs.PrecedenceSpec.
+
+(* once an option has been given explicitly (command line or INI) nothing in Set, defaults, the loop or the defaults pass un-marks it *)
+Theorem C05_prevent_is_monotone :
+  forall (cfg : pconfig) (orc : oracles) (root : command) (ht : rt -> str),
+         let delim := pc_nsdelim cfg in
+         (forall (oc : octx) (arg : option str) (r r' : rt) (e : option err),
+          opt_set orc delim ht oc arg r = Ok (r', e) ->
+          prevent_mono r r' /\
+          f_prevent (rt_fl r' (fid_of oc)) = true /\
+          f_isset (rt_fl r' (fid_of oc)) = true /\
+          rt_fl r' (fid_of oc) = ValueSpec.set_flags (rt_fl r (fid_of oc))) /\
+         (forall (oc : octx) (arg : option str) (r r' : rt) (e : option err),
+          opt_set_default orc delim ht oc arg r = Ok (r', e) -> prevent_mono r r') /\
+         (forall (oc : octx) (ds : list str) (r r' : rt) (e : option err),
+          set_defaults orc delim ht oc ds r = Ok (r', e) -> prevent_mono r r') /\
+         (forall (env : list (str * str)) (edelim : str) (oc : octx) (r r' : rt) (e : option err),
+          opt_clear_default orc delim ht env edelim oc r = Ok (r', e) -> prevent_mono r r') /\
+         (forall (s : pst) (r : rt) (s' : pst) (r' : rt),
+          step cfg orc root ht s r = Ok (Continue s' r') -> prevent_mono r r') /\
+         (forall (s : pst) (r : rt) (s' : pst) (r' : rt),
+          step cfg orc root ht s r = Ok (Break s' r') -> prevent_mono r r') /\
+         (forall (fuel : nat) (s : pst) (r : rt) (s' : pst) (r' : rt),
+          run_loop cfg orc root ht fuel s r = Ok (s', r') -> prevent_mono r r') /\
+         (forall (ocs : list octx) (s : pst) (r : rt) (s' : pst) (r' : rt),
+          clear_defaults cfg orc ht ocs s r = Ok (s', r') -> prevent_mono r r').
+Proof. exact @C05_prevent_monotone. Qed.
+Print Assumptions C05_prevent_is_monotone.
+
+Theorem C05_given_options_ignore_env_and_defaults :
+  forall (cfg : pconfig) (orc : oracles) (ht : rt -> str),
+         (forall (env : list (str * str)) (edelim : str) (oc : octx) (r : rt),
+          f_prevent (rt_fl r (o_fid (oc_opt oc))) = true ->
+          opt_clear_default orc (pc_nsdelim cfg) ht env edelim oc r = Ok (r, None)) /\
+         (forall (ocs : list octx) (s : pst) (r : rt) (s' : pst) (r' : rt),
+          clear_defaults cfg orc ht ocs s r = Ok (s', r') ->
+          forall fid : nat,
+          f_prevent (rt_fl r fid) = true -> rt_vals r' fid = rt_vals r fid /\ rt_fl r' fid = rt_fl r fid).
+Proof. exact @C05_prevented_untouched_by_defaults. Qed.
+Print Assumptions C05_given_options_ignore_env_and_defaults.
+
+Theorem C05_defaults_pass_is_pointwise :
+  forall (cfg : pconfig) (orc : oracles) (ht : rt -> str) (ocs : list octx) 
+           (s : pst) (r : rt) (s' : pst) (r' : rt),
+         clear_defaults cfg orc ht ocs s r = Ok (s', r') ->
+         NoDup (map fid_of ocs) ->
+         forall oc : octx,
+         In oc ocs ->
+         exists (rm : rt) (e : option err),
+           opt_clear_default orc (pc_nsdelim cfg) ht (pc_env cfg) (pc_envdelim cfg) oc r = Ok (rm, e) /\
+           agree_at (fid_of oc) r' rm /\
+           (e <> None ->
+            exists (oc' : octx) (er' : err), In oc' ocs /\ ps_err s' = Some (wrap_marshal cfg oc' er')).
+Proof. exact @clear_defaults_pointwise. Qed.
+Print Assumptions C05_defaults_pass_is_pointwise.
+
+(* an option that was not given ends with env (if set) else default tags applied to the EMPTIED value (replace, never extend), else the initial value *)
+Theorem C05_not_given_gets_highest_source :
+  forall (cfg : pconfig) (orc : oracles) (ht : rt -> str) (ocs : list octx) 
+           (s : pst) (r : rt) (s' : pst) (r' : rt) (oc : octx),
+         let delim := pc_nsdelim cfg in
+         let o := oc_opt oc in
+         let fid := o_fid o in
+         let used := ValueSpec.default_source (pc_env cfg) (pc_envdelim cfg) oc in
+         clear_defaults cfg orc ht ocs s r = Ok (s', r') ->
+         NoDup (map (fun oc0 : octx => o_fid (oc_opt oc0)) ocs) ->
+         In oc ocs ->
+         f_prevent (rt_fl r fid) = false ->
+         (used = [] ->
+          rt_vals r' fid = ValueSpec.clear_value (o_ty o) (rt_vals r fid) /\
+          (ValueSpec.nil_wf (rt_vals r fid) -> rt_vals r' fid = ValueSpec.unnil_map (o_ty o) (rt_vals r fid)) /\
+          rt_fl r' fid = ValueSpec.mark_default (rt_fl r fid)) /\
+         (used <> [] ->
+          exists (rm : rt) (e : option err),
+            set_defaults orc delim ht oc used
+              (opt_empty o (set_fl r fid (ValueSpec.mark_default (rt_fl r fid)))) = 
+            Ok (rm, e) /\
+            rt_vals r' fid = rt_vals rm fid /\
+            rt_fl r' fid = rt_fl rm fid /\
+            (e <> None ->
+             exists (oc' : octx) (er' : err), In oc' ocs /\ ps_err s' = Some (wrap_marshal cfg oc' er'))).
+Proof. exact @C05_unprevented_gets_source. Qed.
+Print Assumptions C05_not_given_gets_highest_source.
+
+Theorem C05_defaults_replace_initial_contents :
+  forall (orc : oracles) (delim : str) (ht : rt -> str) (oc : octx) (used : list str) (ra rb : rt),
+         let o := oc_opt oc in
+         let fid := o_fid o in
+         is_func (o_ty o) = false ->
+         rt_fl ra fid = rt_fl rb fid ->
+         rel_res fid
+           (set_defaults orc delim ht oc used
+              (opt_empty o (set_fl ra fid (ValueSpec.mark_default (rt_fl ra fid)))))
+           (set_defaults orc delim ht oc used
+              (opt_empty o (set_fl rb fid (ValueSpec.mark_default (rt_fl rb fid))))).
+Proof. exact @C05_defaults_replace_initial. Qed.
+Print Assumptions C05_defaults_replace_initial_contents.
+
+Theorem C05_default_error_is_reported :
+  forall (cfg : pconfig) (orc : oracles) (ht : rt -> str) (pre : list octx) 
+           (oc : octx) (post : list octx) (s : pst) (r : rt) (s' : pst) (r' rm : rt) 
+           (er : err),
+         clear_defaults cfg orc ht (pre ++ oc :: post) s r = Ok (s', r') ->
+         NoDup (map fid_of (pre ++ oc :: post)) ->
+         opt_clear_default orc (pc_nsdelim cfg) ht (pc_env cfg) (pc_envdelim cfg) oc r = Ok (rm, Some er) ->
+         (forall oc' : octx, In oc' post -> default_ok cfg orc ht oc' r) ->
+         exists er' : err, same_err (Some er') (Some er) /\ ps_err s' = Some (wrap_marshal cfg oc er').
+Proof. exact @C05_default_error_reported. Qed.
+Print Assumptions C05_default_error_is_reported.
+
+(* the value stored by an explicit occurrence does not depend on what lower-ranked sources had put there *)
+Theorem C05_explicit_value_independent_of_lower_sources :
+  forall (orc : oracles) (delim : str) (ht : rt -> str) (oc : octx) (arg : option str) (ra rb ra' : rt),
+         is_func (o_ty (oc_opt oc)) = false ->
+         armed oc ra ->
+         armed oc rb ->
+         opt_set orc delim ht oc arg ra = Ok (ra', None) ->
+         exists rb' : rt,
+           opt_set orc delim ht oc arg rb = Ok (rb', None) /\ rt_vals rb' (fid_of oc) = rt_vals ra' (fid_of oc).
+Proof. exact @C05_explicit_value_independent. Qed.
+Print Assumptions C05_explicit_value_independent_of_lower_sources.
+
+Theorem C05_ini_as_defaults_then_flag :
+  forall (orc : oracles) (delim : str) (ht : rt -> str) (ign : bool) (groups : list gref)
+           (e : ini_entry) (r : rt) (q : quotes) (dfl : list nat) (oc : octx) (r1 : rt) 
+           (q1 : quotes) (dfl1 : list nat),
+         let fid := o_fid (oc_opt oc) in
+         resolve_entry delim groups (ie_name e) = Some oc ->
+         f_prevent (rt_fl r fid) = false \/ In fid dfl ->
+         apply_entry orc delim ht ign true groups e r q dfl = Ok (r1, q1, dfl1, None) ->
+         (exists (v : option str) (rs : rt),
+            opt_set orc delim ht oc v (unprevent fid r) = Ok (rs, None) /\ rt_vals r1 = rt_vals rs) /\
+         ini_default_marks fid (ie_name e) r1 /\
+         dfl1 = fid :: dfl /\
+         (is_func (o_ty (oc_opt oc)) = false ->
+          forall arg : option str,
+          (forall r2 : rt,
+           opt_set orc delim ht oc arg (rearm fid r1) = Ok (r2, None) ->
+           exists r2' : rt,
+             opt_set orc delim ht oc arg (rearm fid r) = Ok (r2', None) /\ rt_vals r2' fid = rt_vals r2 fid) /\
+          (forall r2' : rt,
+           opt_set orc delim ht oc arg (rearm fid r) = Ok (r2', None) ->
+           exists r2 : rt,
+             opt_set orc delim ht oc arg (rearm fid r1) = Ok (r2, None) /\ rt_vals r2 fid = rt_vals r2' fid)) /\
+         (forall (arg : option str) (r2 : rt) (e2 : option err),
+          opt_set orc delim ht oc arg (rearm fid r1) = Ok (r2, e2) ->
+          f_prevent (rt_fl r2 fid) = true /\ f_isset (rt_fl r2 fid) = true /\ f_isdefault (rt_fl r2 fid) = true).
+Proof. exact @C05_ini_defaults_then_flag. Qed.
+Print Assumptions C05_ini_as_defaults_then_flag.
+
+Theorem C05_flag_then_ini_as_defaults :
+  forall (orc : oracles) (delim : str) (ht : rt -> str) (ign : bool),
+         (forall (oc : octx) (arg : option str) (r0 r : rt) (e0 : option err) (groups : list gref)
+            (e : ini_entry) (q : quotes) (dfl : list nat) (oc' : octx),
+          opt_set orc delim ht oc arg r0 = Ok (r, e0) ->
+          resolve_entry delim groups (ie_name e) = Some oc' ->
+          o_fid (oc_opt oc') = o_fid (oc_opt oc) ->
+          ~ In (o_fid (oc_opt oc)) dfl ->
+          apply_entry orc delim ht ign true groups e r q dfl = Ok (r, q, dfl, None)) /\
+         (forall (root : command) (f : ini_file) (r r' : rt) (er : option err) (fid : nat),
+          f_prevent (rt_fl r fid) = true ->
+          ini_apply orc delim ht ign true root f r = Ok (r', er) ->
+          rt_vals r' fid = rt_vals r fid /\ (exists c : bool, rt_fl r' fid = keep_but_clearref (rt_fl r fid) c)).
+Proof. exact @C05_flag_then_ini_defaults. Qed.
+Print Assumptions C05_flag_then_ini_as_defaults.
+
+(* INI as-defaults ranks below the command line in whichever order they are processed *)
+Theorem C05_ini_as_defaults_both_orders_agree :
+  forall (orc : oracles) (delim : str) (ht : rt -> str) (ign : bool) (groups : list gref)
+           (e : ini_entry) (r : rt) (q : quotes) (dfl : list nat) (oc : octx) (r1 : rt) 
+           (q1 : quotes) (dfl1 : list nat) (arg : option str) (r2 : rt),
+         let fid := o_fid (oc_opt oc) in
+         resolve_entry delim groups (ie_name e) = Some oc ->
+         f_prevent (rt_fl r fid) = false \/ In fid dfl ->
+         is_func (o_ty (oc_opt oc)) = false ->
+         apply_entry orc delim ht ign true groups e r q dfl = Ok (r1, q1, dfl1, None) ->
+         opt_set orc delim ht oc arg (rearm fid r1) = Ok (r2, None) ->
+         exists rb : rt,
+           opt_set orc delim ht oc arg (rearm fid r) = Ok (rb, None) /\
+           (forall (q' : quotes) (dfl' : list nat),
+            ~ In fid dfl' -> apply_entry orc delim ht ign true groups e rb q' dfl' = Ok (rb, q', dfl', None)) /\
+           rt_vals rb fid = rt_vals r2 fid.
+Proof. exact @C05_ini_flag_orders_agree. Qed.
+Print Assumptions C05_ini_as_defaults_both_orders_agree.
+
+Theorem C05_ini_as_defaults_beats_env_and_tags :
+  forall (cfg : pconfig) (orc : oracles) (ht : rt -> str) (ign : bool),
+         let delim := pc_nsdelim cfg in
+         (forall (groups : list gref) (e : ini_entry) (r : rt) (q : quotes) (dfl : list nat) 
+            (oc : octx) (r1 : rt) (q1 : quotes) (dfl1 : list nat),
+          let fid := o_fid (oc_opt oc) in
+          resolve_entry delim groups (ie_name e) = Some oc ->
+          f_prevent (rt_fl r fid) = false \/ In fid dfl ->
+          apply_entry orc delim ht ign true groups e r q dfl = Ok (r1, q1, dfl1, None) ->
+          opt_clear_default orc delim ht (pc_env cfg) (pc_envdelim cfg) oc r1 = Ok (r1, None) /\
+          (forall r2 : rt,
+           prevent_mono r1 r2 ->
+           forall (ocs : list octx) (s s' : pst) (r' : rt),
+           clear_defaults cfg orc ht ocs s r2 = Ok (s', r') ->
+           rt_vals r' fid = rt_vals r2 fid /\ rt_fl r' fid = rt_fl r2 fid)) /\
+         (forall (root : command) (f : ini_file) (r r' : rt),
+          ini_apply orc delim ht ign true root f r = Ok (r', None) ->
+          prevent_mono r r' /\
+          (forall fid : nat,
+           f_prevent (rt_fl r' fid) = true \/
+           rt_vals r' fid = rt_vals r fid /\ fl_core_eq (rt_fl r' fid) (rt_fl r fid))).
+Proof. exact @C05_ini_defaults_beat_env_and_tags. Qed.
+Print Assumptions C05_ini_as_defaults_beats_env_and_tags.
+
+(* END TO END over ParseArgs' core: loop, then per option either untouched (given) or env > default tags > initial value *)
+Theorem C05_precedence_end_to_end :
+  forall (cfg : pconfig) (orc : oracles) (root : command) (ht : rt -> str) (args : list str) 
+           (r : rt) (s' : pst) (r' : rt),
+         parse_core cfg orc root ht args r = Ok (s', r') ->
+         ps_err s' = None ->
+         NoDup (map (fun oc : octx => o_fid (oc_opt oc)) (tree_octxs root)) ->
+         exists (s1 : pst) (r1 : rt),
+           run_loop cfg orc root ht (S (Datatypes.length args)) (initial_pst cfg root args) r = Ok (s1, r1) /\
+           ps_err s1 = None /\
+           prevent_mono r r1 /\
+           (forall k : nat,
+            ~ In k (map (fun oc : octx => o_fid (oc_opt oc)) (tree_octxs root)) ->
+            rt_vals r' k = rt_vals r1 k /\ rt_fl r' k = rt_fl r1 k) /\
+           (forall oc : octx,
+            In oc (tree_octxs root) ->
+            let o := oc_opt oc in
+            let fid := o_fid o in
+            let used := ValueSpec.default_source (pc_env cfg) (pc_envdelim cfg) oc in
+            (f_prevent (rt_fl r1 fid) = true -> rt_vals r' fid = rt_vals r1 fid /\ rt_fl r' fid = rt_fl r1 fid) /\
+            (f_prevent (rt_fl r1 fid) = false ->
+             used = [] ->
+             rt_vals r' fid = ValueSpec.clear_value (o_ty o) (rt_vals r1 fid) /\
+             (ValueSpec.nil_wf (rt_vals r1 fid) ->
+              rt_vals r' fid = ValueSpec.unnil_map (o_ty o) (rt_vals r1 fid)) /\
+             rt_fl r' fid = ValueSpec.mark_default (rt_fl r1 fid)) /\
+            (f_prevent (rt_fl r1 fid) = false ->
+             used <> [] ->
+             exists rm : rt,
+               set_defaults orc (pc_nsdelim cfg) ht oc used
+                 (opt_empty o (set_fl r1 fid (ValueSpec.mark_default (rt_fl r1 fid)))) = 
+               Ok (rm, None) /\ rt_vals r' fid = rt_vals rm fid /\ rt_fl r' fid = rt_fl rm fid)).
+Proof. exact @C05_end_to_end. Qed.
+Print Assumptions C05_precedence_end_to_end.
+
+Theorem C05_no_defaults_after_loop_error :
+  forall (cfg : pconfig) (orc : oracles) (root : command) (ht : rt -> str) (args : list str) 
+           (r : rt) (s' : pst) (r' : rt) (s1 : pst) (r1 : rt) (er : err),
+         parse_core cfg orc root ht args r = Ok (s', r') ->
+         run_loop cfg orc root ht (S (Datatypes.length args)) (initial_pst cfg root args) r = Ok (s1, r1) ->
+         ps_err s1 = Some er -> s' = s1 /\ r' = r1.
+Proof. exact @C05_no_defaults_after_error. Qed.
+Print Assumptions C05_no_defaults_after_loop_error.
+
+Theorem C05_prologue_rearms_replace_semantics :
+  forall (orc : oracles) (ocs : list octx) (r r' : rt),
+         Scenario.prologue_opts orc ocs r = Ok r' ->
+         rt_vals r' = rt_vals r /\
+         (forall k : nat,
+          f_prevent (rt_fl r' k) = f_prevent (rt_fl r k) /\
+          f_isset (rt_fl r' k) = f_isset (rt_fl r k) /\ f_isdefault (rt_fl r' k) = f_isdefault (rt_fl r k)) /\
+         (forall k : nat, f_clearref (rt_fl r k) = true -> f_clearref (rt_fl r' k) = true) /\
+         (forall oc : octx, In oc ocs -> f_clearref (rt_fl r' (fid_of oc)) = true /\ armed oc r').
+Proof. exact @prologue_arms. Qed.
+Print Assumptions C05_prologue_rearms_replace_semantics.
 
